@@ -12,5 +12,7 @@ for f in prog.fns.values():
         sigs[f.name] = [f.locals[i] for i in range(0, f.argc + 1)]
 json.dump({"comment": "functions of msi and msi_ffi on the tree the shape rules were confirmed on; calls to workspace functions NOT in this list are inlined before the rules run (sa/inline.py); "
                       "signatures (return type, then parameter types) let a renamed or moved private function be recognised",
-           "tree": facts.tree_hash(), "functions": names, "signatures": sigs}, open("/verif/tables/known_fns.json", "w"), indent=0)
+           "tree": facts.tree_hash(), "functions": names, "signatures": sigs,
+           "adts": {k: [[[fn_, ft] for fn_, ft in v["fields"]] for v in a["variants"]] for k, a in prog.adts.items() if k.split("::", 1)[0] in ("msi", "msi_ffi")},
+           "consts": {k: [c.get("ty"), c.get("val")] for k, c in prog.consts.items() if k.split("::", 1)[0] in ("msi", "msi_ffi")}}, open("/verif/tables/known_fns.json", "w"), indent=0)
 print(len(names), "functions")
